@@ -276,6 +276,39 @@ def _montecarlo_table(ck: Checker, prog: Program, f):
             ck.violation("C14.R4", q, f"{p} rebound", f"`{p}` is rebound inside montecarlo_fn", loc=f.loc())
 
 
+def _every_cell_clipped(ck: Checker, prog: Program, bv):
+    """Every cell of the tessellation is intersected with the mask on every path through the cell loop (a closed cell can reach
+    beyond the boundary just as an open one does): the vertices collected for a cell derive from `<cell>.intersection(mask)`."""
+    from ..pathtable import PathTable
+    loops = [st for st in bv.node.body if isinstance(st, ast.For) and any(True for _ in calls_in(st, "append"))]
+    if len(loops) != 1:
+        raise AnalysisError(f"{bv.qualname}: the loop over the cells is not recognised")
+    lp = loops[0]
+    env = {n.id: sp.Symbol("<cell>", real=True) for n in ast.walk(lp.target) if isinstance(n, ast.Name)}
+    leaves = PathTable(prog, bv.module, env=env, structured=True).leaves(lp.body)
+    MASK = sp.Symbol(bv.params[1], real=True)
+    bad = 0
+    n = 0
+    for l in leaves:
+        if l.exit == "raise":
+            continue
+        apps = [e for e in l.events if e[0] == "call" and e[1].endswith(".append")]
+        if not apps:
+            continue
+        n += 1
+        v = apps[-1][2].args[-1] if getattr(apps[-1][2], "args", None) else None
+        clipped = v is not None and any(getattr(getattr(a, "func", None), "__name__", "") == "intersection" and MASK in a.args for a in sp.preorder_traversal(v))
+        if not clipped:
+            bad += 1
+    if n == 0:
+        raise AnalysisError(f"{bv.qualname}: no path of the cell loop collects vertices")
+    if bad == 0:
+        ck.ok("C14.R5", bv.qualname, "every cell is clipped by the mask before its vertices are collected", detail=f"{n} path(s) through the cell loop")
+    else:
+        ck.violation("C14.R5", bv.qualname, "cell clipping", f"{bad} of {n} paths through the cell loop collect a cell that was not intersected with the mask: "
+                     f"a cell reaching beyond the boundary keeps the outside area in its weight", loc=bv.loc(lp))
+
+
 def _spatial(ck: Checker, prog: Program):
     cls = prog.cls("HvsrSpatial")
     eng = engine(prog)
@@ -425,6 +458,7 @@ def _spatial(ck: Checker, prog: Program):
         ck.ok("C14.R5", bv.qualname, "tessellation of the retained sensors, each cell clipped by the mask; indices of the same culling")
     else:
         ck.violation("C14.R5", bv.qualname, "tessellation bookkeeping", "cells and indices do not come from one culling of the sensors against the given mask", loc=bv.loc())
+    ck.guard(_every_cell_clipped, ck, prog, bv)
     ck.guard(_closing_distance, ck, prog, cls)
     # statelessness
     n = 0
